@@ -335,6 +335,19 @@ class FIXContainer:
         r += "|".join(allTags)
         return r
 
+    def _eq_key(self) -> list:
+        """Structure compared by __eq__: a rendering that cannot mix up tag boundaries."""
+        key = []
+        for tag, tag_value in self.tags.items():
+            if isinstance(tag_value, _FIXRepeatingGroupContainer):
+                tag_value = [g._eq_key() for g in tag_value.groups]
+            elif _isclass(tag_value) and issubclass(tag_value, Exception):
+                tag_value = "#err#"
+            else:
+                tag_value = str(tag_value)
+            key.append((tag, tag_value))
+        return key
+
     def __eq__(self, other: FIXContainer | dict) -> bool:
         """Equality checks.
 
@@ -348,9 +361,9 @@ class FIXContainer:
         Raises:
             FIXMessageError: group comparison not supported
         """
-        # if our string representation looks the same, the objects are equivalent
+        # same tags, same order, same values (as rendered), groups compared item by item
         if isinstance(other, FIXContainer):
-            return self.__str__() == other.__str__()
+            return self._eq_key() == other._eq_key()
         elif isinstance(other, dict):
             ignore_tags = {
                 FTag.BeginString,
